@@ -13,6 +13,8 @@ import PgProofs.EvoAlign
 import PgProofs.EvoAlignU
 import PgProofs.EvoPure
 import PgProofs.EvoPermP
+import PgProofs.EvoNumP
+import Mathlib.Tactic.NormNum
 import Mathlib.Data.List.Perm.Subperm
 namespace Pg.C14
 
@@ -179,6 +181,74 @@ theorem C14_primitive_recOrder (g : GSpec) : ClosedAligned g (recOrder g) := by
   rcases recOrder_spec g pop st out st' h with ⟨rfl, _⟩ | ⟨_, hall⟩
   · exact hp
   · exact fun y hy => ⟨(hall y hy).1, (hall y hy).2.1⟩
+
+/-! ## Numeric recombinators `Average` / `WeightedAverage` (exact rationals) -/
+
+/-- children are what `from_dict` accepted (closure by validation) … -/
+theorem C14_primitive_recNumeric (w : Option (Nat → List Q)) (g : GSpec) : ClosedAligned g (recNumeric w g) := by
+  intro pop st out st' _ h
+  simp only [recNumeric] at h
+  split at h
+  · rw [pure_ok] at h
+    obtain ⟨rfl, rfl⟩ := h
+    intro y hy; simp at hy
+  · split at h
+    · exact ((fail_ok _ _ _).mp h).elim
+    · generalize allSome _ = r at h
+      cases r with
+      | none => exact ((fail_ok _ _ _).mp h).elim
+      | some raw =>
+        exact fun y hy => ⟨((finishChildren_spec g raw st out st' h).2 y hy).1,
+          ((finishChildren_spec g raw st out st' h).2 y hy).2.1⟩
+
+/-- … and `from_dict` has nothing to reject: with non-negative weights the (weighted) mean of the
+decisions of the parents for which a float point is active lies within the bounds of that point, so
+every averaged child of valid parents is valid *before* validation (the operator cannot raise
+`ValueError` on valid parents; a divisor that counts inactive parents — the seeded regression —
+breaks exactly this). -/
+theorem C14_average_children_valid (ws : List Q) (hw : ∀ w ∈ ws, 0 ≤ w) (g : GSpec) (pop : Pop)
+    (hv : ∀ x ∈ pop, Valid g x.dna) :
+    ∀ x ∈ pop, ∀ d', avgDna ws g (pop.map (fun x => some x.dna)) x.dna = some d' → Valid g d' := by
+  intro x hx d' h
+  refine avgDna_valid ws hw x.dna g _ d' (hv x hx) ?_ h
+  intro d hd
+  simp only [List.mem_map, Option.some.injEq] at hd
+  obtain ⟨y, hy, rfl⟩ := hd
+  exact hv y hy
+
+theorem C14_average_weights_ok (n : Nat) : (∀ w ∈ harnessWeights n, (0 : Q) ≤ w) ∧
+    (∀ (pop : Pop), ∀ w ∈ pop.map (fun _ => (1 : Q)), (0 : Q) ≤ w) := by
+  constructor
+  · intro w hw
+    simp only [harnessWeights, List.mem_map] at hw
+    obtain ⟨i, _, rfl⟩ := hw
+    exact Nat.cast_nonneg _
+  · intro pop w hw
+    simp only [List.mem_map] at hw
+    obtain ⟨_, _, rfl⟩ := hw
+    exact zero_le_one
+
+theorem C14_pure_recNumeric (w : Option (Nat → List Q)) (g : GSpec) : Pure g (recNumeric w g) := by
+  intro pop st out st' _ h
+  simp only [recNumeric] at h
+  split at h
+  · rw [pure_ok] at h
+    obtain ⟨rfl, rfl⟩ := h
+    exact ⟨Nat.le_refl _, by intro y hy; simp at hy⟩
+  · split at h
+    · exact ((fail_ok _ _ _).mp h).elim
+    · generalize allSome _ = r at h
+      cases r with
+      | none => exact ((fail_ok _ _ _).mp h).elim
+      | some raw =>
+        obtain ⟨hle, hall⟩ := finishChildren_spec g raw st out st' h
+        exact ⟨hle, fun y hy => ⟨(hall y hy).1, Or.inr (hall y hy).2.2⟩⟩
+
+/-- the mean of 3/4 (active in two parents) over a population where the point is inactive in the
+third parent is 3/4 — not 1/2, which the bounds [1/2, 1] would still accept, nor 1/4. -/
+example : meanOf [some (3/4 : Q), none, some (3/4 : Q)] [1, 1, 1] = some (3/4 : Q) := by
+  simp only [meanOf, activePairs, qsum, List.map_cons, List.map_nil]
+  norm_num
 
 /-! ## Mutators (mutators.py) -/
 
